@@ -267,11 +267,32 @@ def _unseeded(spec, ctx):
     constant = hasattr(a, '__len__') and len(np.unique(np.asarray(a if not hasattr(a, 'to_numpy') else a.to_numpy(), dtype=float))) <= 3
     if not constant:
         ctx.check(after != before, 'unseeded.advances-global', 'C15:unseeded-sample-did-not-use-global-state', where)
+    # a seed given at construction (before fit) and a later re-seed: the stream is a function of the LAST seed
+    fam, name = spec['kind'].split(':')
+    if fam == 'u':
+        data = uni.make_data({'kind': 'skewed', 'n': 120, 'seed': int(rng.integers(1 << 30))})
+        pair = []
+        for cs in (1, 2):
+            mm = uni.klass(name)(random_state=cs)
+            np.random.seed(9)
+            mm.fit(data.copy())
+            mm.sample(3)
+            pair.append(mm)
+        for mm in pair:
+            mm.set_random_state(s)
+        a1, a2 = pair[0].sample(5), pair[1].sample(5)
+        ctx.check(_as_bytes(a1) == _as_bytes(a2), 'seeded.reseed-overrides-constructor-seed',
+                  'C15:stream-depends-on-constructor-seed-after-reseeding', where)
+        pair[0].set_random_state(s)
+        a3 = pair[0].sample(5)
+        ctx.check(_as_bytes(a1) == _as_bytes(a3), 'seeded.reseed-restarts-stream', 'C15:reseeding-does-not-restart-stream', where)
     # and with a seed: two equal models, same seed -> same stream; successive calls differ
     m1, m2 = copy.deepcopy(m), copy.deepcopy(m)
     m1.set_random_state(s)
     m2.set_random_state(np.random.RandomState(s))
     x1, x2, y1 = sampler(m1, 5), sampler(m2, 5), sampler(m1, 5)
+    m1.set_random_state(s)
+    ctx.check(_as_bytes(sampler(m1, 5)) == _as_bytes(x1), 'seeded.reseed-restarts-stream', 'C15:reseeding-does-not-restart-stream', where)
     ctx.check(_as_bytes(x1) == _as_bytes(x2), 'seeded.equal-models-equal-streams', 'C15:equal-models-same-seed-differ', where)
     if not constant:
         ctx.check(_as_bytes(x1) != _as_bytes(y1), 'seeded.stream-advances', 'C15:successive-calls-do-not-advance', where)
